@@ -7,6 +7,7 @@ import Swat4.Lemmas.C13Race
 import Swat4.Lemmas.C13Bridge
 import Swat4.Lemmas.C13Exp20
 import Swat4.Lemmas.C13Budget
+import Swat4.Lemmas.UseCaseMore
 /-!
 # C13 — A probe outcome transforms the latest server state and nothing else
 
@@ -1075,5 +1076,31 @@ transformed word for every status word, goal and outcome.  So the oracle side (`
 the `table` verdict are two definitions of different origin that are proved to coincide — exhaustively, by kernel evaluation. -/
 theorem specWord_is_model (g : Goal) (o : Outcome) : ∀ w : Status, specWord g o w.toNat = (modelStatus g o w).toNat := by
   cases g <;> cases o <;> decide
+
+/-! ## the programs `usecases_callbacks_stable` left out (third outside review, item 6) -/
+
+/-- **`usecases_callbacks_stable`, the two remaining client programs.**  The list of `usecases_callbacks_stable` is written by
+hand; two programs the drivers run as clients were not in it: `Heartbeat6.renewIP` (the keepalive use case with the request's
+`net.IP` as it is — an `Update` with a callback — run by the `dg6` op) and the prober runner `UC.proberRunWith` / `UC.proberRun`
+(`PopMany(n)`, then `UC.probe` for every popped probe in any order with any outcomes; the program of a `pop|<n>|<outcome>`
+client).  Both are `VerMono.ProgStable`: every conflict callback they can pass leaves address and version alone and they never
+issue a `Remove` — so `prog_version_mono`, `Others` (`others_run`) and the `_at` race theorems apply to them as concurrent
+activities as well. -/
+theorem usecases_callbacks_stable_more :
+    (∀ i ip, VerMono.ProgStable (Heartbeat6.renewIP i ip)) ∧
+    (∀ n oc order, VerMono.ProgStable (UC.proberRunWith n oc order)) ∧
+    (∀ n outcome, VerMono.ProgStable (UC.proberRun n outcome)) :=
+  ⟨UseCaseMore.renewIP_stable, UseCaseMore.proberRunWith_stable, UseCaseMore.proberRun_stable⟩
+
+/-- … hence the hypothesis `KeyPreserving` of the C09 theorems (`C09.usecases_resolvers_key_preserving`, whose hand-written list
+has the same gap; `Properties/C09.lean` is not restated for it) holds for every registry write of these two programs too:
+`KeyPres.of_progStable`, `ProgAddrPreserving.key`. -/
+theorem usecases_more_key_preserving :
+    (∀ i ip, KeyPres.ProgKeyPreserving (Heartbeat6.renewIP i ip)) ∧
+    (∀ n oc order, KeyPres.ProgKeyPreserving (UC.proberRunWith n oc order)) ∧
+    (∀ n outcome, KeyPres.ProgKeyPreserving (UC.proberRun n outcome)) :=
+  ⟨fun i ip => (KeyPres.of_progStable (UseCaseMore.renewIP_stable i ip)).key,
+   fun n oc order => (KeyPres.of_progStable (UseCaseMore.proberRunWith_stable n oc order)).key,
+   fun n o => (KeyPres.of_progStable (UseCaseMore.proberRun_stable n o)).key⟩
 
 end Swat4.C13
